@@ -291,11 +291,12 @@ class kMinPathErrorCycles(walkmodel.AbstractWalkModelDiGraph):
         
         # We will encode that edge_vars[(u,v,i)] * self.path_weights_vars[(i)] = self.pi_vars[(u,v,i)],
         # assuming self.w_max is a bound for self.path_weights_vars[(i)]
+        # (a walk can traverse an edge several times, so the product is bounded by the per-edge repetition bound times w_max)
         self.pi_vars = self.solver.add_variables(
             self.edge_indexes,
             name_prefix="pi",
             lb=0,
-            ub=self.w_max,
+            ub=[self.w_max * max(1, self.edge_upper_bounds[(u, v)]) for (u, v, i) in self.edge_indexes],
             var_type="integer" if self.weight_type == int else "continuous",
         )
         
@@ -310,11 +311,12 @@ class kMinPathErrorCycles(walkmodel.AbstractWalkModelDiGraph):
         
         # We will encode that edge_vars[(u,v,i)] * self.path_slacks_vars[(i)] = self.gamma_vars[(u,v,i)],
         # assuming self.w_max is a bound for self.path_slacks_vars[(i)]
+        # (same remark as for pi_vars: the number of traversals of the edge multiplies the slack)
         self.gamma_vars = self.solver.add_variables(
             self.edge_indexes,
             name_prefix="gamma",
             lb=0,
-            ub=self.w_max,
+            ub=[self.w_max * max(1, self.edge_upper_bounds[(u, v)]) for (u, v, i) in self.edge_indexes],
             var_type="continuous",
         )
                 
